@@ -434,6 +434,33 @@ func (s *verifConfSuite) partialCandidates(c *C) [][2]interface{} {
 
 var verifConfReadyStatuses = []state.Status{state.DoneStatus, state.DoneStatus, state.UndoneStatus, state.ErrorStatus, state.HoldStatus}
 
+// verifConfAbort makes an in-progress change ready the way an abort would: a fresh change through the real
+// Change.Abort (Do -> Hold); a change with finished lanes by "running" their undo first (Done -> Undone) and then
+// holding the rest (Change.Abort itself cannot be used there without a task runner: it passes through a state in
+// which every task is ready before it flips the finished ones to Undo, which the state package rejects).
+func verifConfAbort(chg *state.Change) {
+	fresh := true
+	for _, t := range chg.Tasks() {
+		if t.Status() != state.DoStatus {
+			fresh = false
+		}
+	}
+	if fresh {
+		chg.Abort()
+		return
+	}
+	for _, t := range chg.Tasks() {
+		if t.Status() == state.DoneStatus {
+			t.SetStatus(state.UndoneStatus)
+		}
+	}
+	for _, t := range chg.Tasks() {
+		if !t.Status().Ready() {
+			t.SetStatus(state.HoldStatus)
+		}
+	}
+}
+
 func verifConfPick(r *rand.Rand, l []string) string { return l[r.Intn(len(l))] }
 
 func verifConfEnvInt(name string, def int) int {
@@ -502,7 +529,7 @@ func (s *verifConfSuite) step(c *C, r *rand.Rand) {
 				t.SetStatus(state.DoneStatus)
 			}
 		} else {
-			chg.Abort()
+			verifConfAbort(chg)
 		}
 		s.emit(c, "Progress", map[string]interface{}{"c": i, "how": how}, nil, true)
 		return
@@ -775,7 +802,7 @@ func (s *verifConfSuite) runPairs(c *C, newHistory func(status map[string]string
 						if len(live) == 0 {
 							continue
 						}
-						s.chgs[live[0]-1].Abort()
+						verifConfAbort(s.chgs[live[0]-1])
 						s.emit(c, "Progress", map[string]interface{}{"c": live[0], "how": "abort"}, nil, true)
 					}
 					S := second.args(y)
@@ -821,12 +848,7 @@ func (s *verifConfSuite) TestVerifConflictsRun(c *C) {
 		// make everything left over from the previous history ready, then forget it
 		for _, chg := range s.state.Changes() {
 			if !chg.IsReady() {
-				chg.Abort()
-				for _, t := range chg.Tasks() {
-					if !t.Status().Ready() {
-						t.SetStatus(state.HoldStatus)
-					}
-				}
+				verifConfAbort(chg)
 			}
 			if !chg.IsReady() {
 				c.Fatalf("cannot retire change %s (%s)", chg.Kind(), chg.Status())
